@@ -582,9 +582,11 @@ def walk (co : Bytes → Bool) (run : Run) (pre ts ss : List Child) (modified : 
       | (run1, keep, m, f) =>
         walk co run1 (hookIf f pre ++ hookIf f keep.toList) (hookIf f ts') (s :: ss') (modified || m) (if f then fired + 1 else fired)
     else
-      match updateChild co run pre t s ts' with
+      -- present in both: the entry takes the file's spelling of its name (names compare ignoring
+      -- case) before its value is replaced; a respelling counts as a change of membership
+      match updateChild co run pre { t with name := s.name } s ts' with
       | (run1, t', f) =>
-        walk co run1 (hookIf f pre ++ hookIf f [t']) (hookIf f ts') ss' modified (if f then fired + 1 else fired)
+        walk co run1 (hookIf f pre ++ hookIf f [t']) (hookIf f ts') ss' (modified || t.name != s.name) (if f then fired + 1 else fired)
 termination_by ts.length + ss.length
 decreasing_by all_goals (simp only [length_hookIf, List.length_cons, List.length_nil]; omega)
 
